@@ -293,6 +293,11 @@ def make_overlay(ctx):
     for f in sorted(os.listdir(sim)):
         if f.endswith(".go"):
             repl[os.path.join(REPO, "internal", "verifsim", f)] = os.path.join(sim, f)
+    # development aid only (never set by a registered command): try a changed source file without touching /repo,
+    # VERIF_DEV_OVERLAY="<repo-relative path>=<file>[,...]"
+    for item in filter(None, os.environ.get("VERIF_DEV_OVERLAY", "").split(",")):
+        rel, _, src = item.partition("=")
+        repl[os.path.join(REPO, rel)] = src
     path = os.path.join(ctx.scratch, "overlay.json")
     with open(path, "w") as fh:
         json.dump({"Replace": repl}, fh)
